@@ -17,6 +17,10 @@ const (
 	BindingPathParam
 	// BindingQueryParam indicates a variable bound from a route query parameter.
 	BindingQueryParam
+	// BindingRequest indicates one of the request objects every route is given
+	// (query, input, headers, auth). User code may declare a variable of the same
+	// name, which then takes its place, as it may in compiled routes.
+	BindingRequest
 )
 
 // binding stores a variable's value alongside the source of its binding.
